@@ -14,7 +14,8 @@ CONSTANTS Streams, W0, C0, MF0, DataSizes, PadSizes, Incs, InitWins, MaxFrames,
           Pings,          \* PING payload identities
           BugContES,      \* TRUE: model relay.go:584 (continuation always END_STREAM)
           BugPadCredit,   \* TRUE: model relay.go:496 (credit payload only)
-          EncodeAtEnqueue \* TRUE: header blocks are HPACK-encoded when queued (as the code did), not when written
+          EncodeAtEnqueue, \* TRUE: header blocks are HPACK-encoded when queued (as the code did), not when written
+          BugZeroCostHeld  \* TRUE: relay.go:562 as found - a frame that is not flow-controlled is held back while a window is negative
 
 VARIABLES q, sw, bufs, cw, iw, mf, out, cont,      \* relay (flowMu-protected + continuation state)
           ctl,                                     \* B -> relay control frames in flight
@@ -47,10 +48,14 @@ Init ==
 \* relay.go:483 outputBuffer(): created on first use with the *current* initial window
 Buf(s) == IF s \in bufs THEN sw[s] ELSE iw
 
+\* only flow-controlled octets are subject to the windows: RST_STREAM, header blocks, PUSH_PROMISE and empty DATA
+\* are never held back, also not while a SETTINGS change has made a stream window negative
+Blocked(f, w, c) == FC(f) > 0 /\ (FC(f) > c \/ FC(f) > w)
+Held(f, w, c) == IF BugZeroCostHeld THEN FC(f) > c \/ FC(f) > w ELSE Blocked(f, w, c)
 \* relay.go:551 emitEligibleFrames for one stream
 RECURSIVE EmitStream(_, _, _, _)
 EmitStream(queue, w, c, acc) ==
-  IF queue = <<>> \/ FC(Head(queue)) > c \/ FC(Head(queue)) > w
+  IF queue = <<>> \/ Held(Head(queue), w, c)
   THEN [queue |-> queue, w |-> w, c |-> c, emitted |-> acc]
   ELSE EmitStream(Tail(queue), w - FC(Head(queue)), c - FC(Head(queue)), Append(acc, Head(queue)))
 
@@ -259,7 +264,7 @@ WithinGrant      == ~bad                       \* C09: stream and connection cre
 WithinMaxFrame   == ~badMF                     \* C09: frame size limit respected
 CreditReturned   == aCredC = aFCc /\ \A s \in Streams : aCred[s] = aFC[s]      \* C09
 NoEligibleQueued ==                            \* C09/C10: nothing that fits stays queued
-  \A s \in Streams : q[s] # <<>> => (FC(Head(q[s])) > cw \/ FC(Head(q[s])) > Buf(s))
+  \A s \in Streams : q[s] # <<>> => Blocked(Head(q[s]), Buf(s), cw)
 LedgerAgrees     == gC = cw /\ \A s \in bufs : gS[s] = sw[s]     \* relay windows = B's ledger
 \* C10: the receiver decodes header blocks in the order the relay encoded them (HPACK state stays in step)
 HpackInOrder     == \A i \in 1..Len(dlvOrder) : i <= Len(encOrder) /\ dlvOrder[i] = encOrder[i]
